@@ -118,7 +118,7 @@ pub fn describe(arg: u64, raw: bool) -> String {
     let (b, a) = if raw { (arg & 3, arg >> 2) } else { (0, arg) };
     let ms: Vec<&str> = decode(a).into_iter().map(mname).collect();
     if raw {
-        format!("raw_entry_mut().{}.{}", ["from_key", "from_key_hashed_nocheck", "from_hash"][b as usize], ms.join("."))
+        format!("raw_entry_mut().{}.{}", ["from_key", "from_key_hashed_nocheck", "from_hash", "from_hash(one-shot matcher)"][b as usize], ms.join("."))
     } else {
         format!("entry.{}", ms.join("."))
     }
@@ -290,7 +290,19 @@ fn run_entry_chain_inner<K: El, V: El>(m: &mut M<K, V>, r: &mut BTreeMap<u32, u3
         let e = match builder {
             0 => b.from_key(&kk),
             1 => b.from_key_hashed_nocheck(h, &kk),
-            _ => b.from_hash(h, |q| q.id() == lk),
+            2 => b.from_hash(h, |q| q.id() == lk),
+            _ => {
+                // a stateful (FnMut) matcher that says yes once: a lookup asks about the matching key once
+                let mut asked = false;
+                b.from_hash(h, move |q| {
+                    if q.id() == lk && !asked {
+                        asked = true;
+                        true
+                    } else {
+                        false
+                    }
+                })
+            }
         };
         harness(|| drop(kk));
         St::RE(e)
